@@ -1,6 +1,6 @@
 //! C12 — aliases are transparent; alias conflicts are rejected.
 //!
-//! Part A (transparency, stateless exhaustive substitution). Three base ledgers declare accounts and
+//! Part A (transparency, stateless exhaustive substitution). Four base ledgers (L1..L3 below, L4 for part D) declare accounts and
 //! commodities with one or two aliases each and mention the declared names in every syntactic position
 //! (posting account with amount / assertion / assignment / omitted amount, amount commodity, `@` and `@@`
 //! cost, `{}` and `{{}}` lot, assertion and assignment commodity, terms of a parenthesised expression,
@@ -20,6 +20,14 @@
 //! acceptance, Ledger::balance, transactions, Ledger::balance converted to USD and JPY, and the CLI `balance`,
 //! `register`, `balance -X USD|JPY` with `--price-db` equal the canonical ledger + canonical DB run (whose
 //! `balance -X USD` report is pinned to a hand-checked text) and show canonical names only.
+//!
+//! Part D (register by account is complete — an ABSOLUTE clause, not relative to the canonical run, which declares
+//! the same aliases). For every account that occurs in a ledger, `Ledger::postings(account)` / `okane register FILE
+//! <account>` lists exactly that account's postings of `Ledger::transactions()` / of the unrestricted register.
+//! Checked through the API in every case of parts A and C (default map order), and for the canonical form and every
+//! single account-site substitution of the four base ledgers through API and CLI under every execution with <= d
+//! non-default iteration orders of okane's internal maps (verif hook; d = 1 quick, 2 thorough). L4 puts canonical
+//! account records before, between and after the alias records of the account table.
 //!
 //! Part B (conflicts, explicit-state search over histories). Names {p,q,r}, two name spaces (accounts,
 //! commodities). Actions: use a name in a posting, `account c`, `account c` + `alias a` (incl. a = c),
@@ -44,8 +52,8 @@ use crate::q::{qmap_add, qmap_show, QMap, Q};
 pub const DEF: CheckDef = CheckDef {
     id: "C12",
     run,
-    technique: "part A: stateless exhaustive substitution (every assignment canonical/alias1/alias2 to every mention site of three base ledgers, metamorphic comparison with the all-canonical run through the API and the in-process CLI); part C: the same exhaustive substitution over the mention sites of a price-database file given with --price-db; part B: explicit-state BFS over alias tables plus all raw action sequences up to a depth bound, each edge re-running the real book-keeping on the whole history and observing the resulting table through probe postings",
-    rule: "part A case = (base ledger, assignment of a declared name to each of its 10..15 mention sites); states = distinct substituted ledgers. Part C case = (base ledger L2/L3 in canonical or alias spelling, assignment of a declared name to each of the 9 resp. 7 mention sites of its price DB), all 2 592 resp. 648 assignments in both tiers. Part B case = (reference-accepted history, next action) over names {p,q,r} x {accounts, commodities}; states = distinct alias tables (B1) resp. distinct histories (B2); transitions = cases executed on the real code. A case is MUST when the statement fixes the outcome: substituted ledger == canonical ledger in every report; alias-already-canonical (declared or merely used) and canonical-already-alias rejected with an error; every other first declaration / use accepted with all balances under the canonical name",
+    technique: "part A: stateless exhaustive substitution (every assignment canonical/alias1/alias2 to every mention site of three base ledgers, metamorphic comparison with the all-canonical run through the API and the in-process CLI); part C: the same exhaustive substitution over the mention sites of a price-database file given with --price-db; part D: absolute completeness of the per-account register under every map-iteration order with <= d deviations (order-controllable map behind --cfg okane_verif); part B: explicit-state BFS over alias tables plus all raw action sequences up to a depth bound, each edge re-running the real book-keeping on the whole history and observing the resulting table through probe postings",
+    rule: "part A case = (base ledger, assignment of a declared name to each of its 10..15 mention sites); states = distinct substituted ledgers. Part C case = (base ledger L2/L3 in canonical or alias spelling, assignment of a declared name to each of the 9 resp. 7 mention sites of its price DB), all 2 592 resp. 648 assignments in both tiers. Part D case = (base ledger L1..L4, canonical form or one account site written as an alias), inside which all executions with <= 1 (thorough 2) non-default map orders are explored and every account's restricted register is compared with the unrestricted one. Part B case = (reference-accepted history, next action) over names {p,q,r} x {accounts, commodities}; states = distinct alias tables (B1) resp. distinct histories (B2); transitions = cases executed on the real code. A case is MUST when the statement fixes the outcome: substituted ledger == canonical ledger in every report; alias-already-canonical (declared or merely used) and canonical-already-alias rejected with an error; every other first declaration / use accepted with all balances under the canonical name",
     assumptions: &[
         "the all-canonical form of each base ledger is the reference of part A; its `balance` report is pinned to a hand-checked text so that a change hitting canonical and alias spellings alike is still reported",
         "DON'T-CARE: alias of itself (`account p` + `alias p`), alias re-pointed to another canonical; duplicate declarations (`account p` twice, identical alias twice) may be rejected, but if accepted must leave the table unchanged",
@@ -188,6 +196,23 @@ commodity JPY\n  ; comment first\n  format 1,000 JPY\n  alias \u{a5}\n\n\
     price_db: Some(&DB3),
 };
 
+/// Canonical account records before, between and after the alias records of the account table
+/// (first uses before the first declaration, between the two declarations and after the last one).
+const L4: Base = Base {
+    name: "L4-accounts-around-alias-declarations",
+    entities: &[Entity { tag: "A0", kind: Kind::Account, canonical: "Assets:Bank" }, Entity { tag: "A1", kind: Kind::Account, canonical: "Expenses:Food" }],
+    template: "2024/01/01 before any declaration\n  Assets:Cash  5 USD\n  Equity\n\n\
+account Assets:Bank\n  alias bank\n\n\
+2024/01/02 between the two declarations\n  <A0 posting+amount>  10 USD\n  Income:Salary\n\n\
+account Expenses:Food\n  alias food\n\n\
+2024/01/03 after the last declaration\n  <A1 posting+amount>  3 USD\n  Assets:Wallet\n\n\
+2024/01/04 both declared accounts\n  <A0 posting+amount>  -2 USD\n  <A1 posting-omitted>\n\n",
+    commands: &[("balance", &["balance", "{}"]), ("register", &["register", "{}"]), ("register-Assets:Wallet", &["register", "{}", "Assets:Wallet"])],
+    accounts: &["Assets:Cash", "Assets:Bank", "Income:Salary", "Expenses:Food", "Assets:Wallet"],
+    expected_balance: "Assets:Bank: 8 USD\nAssets:Cash: 5 USD\nAssets:Wallet: -3 USD\nEquity: -5 USD\nExpenses:Food: 5 USD\nIncome:Salary: -10 USD\n",
+    price_db: None,
+};
+
 const QUICK_CAP: u64 = 20_000;
 
 struct Site {
@@ -210,6 +235,8 @@ struct Compiled {
     aliases: Vec<Vec<String>>,
     /// (site, choice) -> does this substitution alone break transparency? (filled on demand, only when a violation is classified)
     single_cache: std::cell::RefCell<BTreeMap<(usize, u8), bool>>,
+    /// (alias, canonical) of every declared account alias
+    account_aliases: Vec<(String, String)>,
 }
 
 fn compile(base: &'static Base) -> Compiled {
@@ -252,7 +279,8 @@ fn compile_text(base: &'static Base, template: &'static str, declared: Option<&V
             pieces.push(Piece::Lit(rest.to_string()));
         }
     }
-    Compiled { base, pieces, sites, aliases: avail, single_cache: Default::default() }
+    let account_aliases = base.entities.iter().zip(&avail).filter(|(e, _)| e.kind == Kind::Account).flat_map(|(e, a)| a.iter().map(move |x| (x.clone(), e.canonical.to_string()))).collect();
+    Compiled { base, pieces, sites, aliases: avail, single_cache: Default::default(), account_aliases }
 }
 
 impl Compiled {
@@ -366,6 +394,35 @@ struct ApiObs {
     register: Vec<(String, QMap)>,
     by_account: Vec<(String, Vec<(String, QMap)>)>,
     range_balance: Balances,
+    /// violations of the absolute register-by-account clause: (kind, detail); empty when it holds
+    absolute: Vec<(&'static str, String)>,
+}
+
+/// The absolute clause: for EVERY account that occurs in `Ledger::transactions()`, `Ledger::postings` with that
+/// account lists exactly the postings of that account (same count, same order, same amounts). An alias given as
+/// the query argument is not judged when nothing is listed; if something is listed it must be the canonical
+/// account's postings.
+fn absolute_register_clause(txns: &[TxnView], aliases: &[(String, String)], query: &dyn Fn(&str) -> Vec<(String, QMap)>) -> Vec<(&'static str, String)> {
+    let mut out = vec![];
+    let all: Vec<(String, QMap)> = txns.iter().flat_map(|t| &t.postings).map(|p| (p.account.clone(), p.amount.clone())).collect();
+    let names: BTreeSet<&String> = all.iter().map(|(a, _)| a).collect();
+    let of = |name: &str| -> Vec<(String, QMap)> { all.iter().filter(|(a, _)| a == name).cloned().collect() };
+    for name in names {
+        let want = of(name);
+        let got = query(name);
+        if got.is_empty() && !want.is_empty() {
+            out.push(("empty-although-account-has-postings", format!("account {:?} has {} postings in Ledger::transactions() but Ledger::postings(account = {:?}) lists none", name, want.len(), name)));
+        } else if got != want {
+            out.push(("differs-from-transactions", format!("account {:?}: Ledger::transactions() has {:?}\nbut Ledger::postings(account) lists {:?}", name, want, got)));
+        }
+    }
+    for (alias, canonical) in aliases {
+        let got = query(alias);
+        if !got.is_empty() && got != of(canonical) {
+            out.push(("alias-argument-lists-wrong-postings", format!("Ledger::postings(account = {:?}) (an alias of {:?}) lists {:?}\nbut the account's postings are {:?}", alias, canonical, got, of(canonical))));
+        }
+    }
+    out
 }
 
 #[derive(Clone, PartialEq, Eq, Debug)]
@@ -396,7 +453,8 @@ fn run_cli(args: &[String]) -> String {
     }
 }
 
-fn observe_api(base: &Base, text: &str) -> Result<ApiObs, String> {
+fn observe_api(c: &Compiled, text: &str) -> Result<ApiObs, String> {
+    let base = c.base;
     oka::with_ledger(&[(oka::ROOT, text)], oka::ROOT, None, |r| {
         let (l, ctx) = match r {
             Ok(x) => x,
@@ -415,12 +473,14 @@ fn observe_api(base: &Base, text: &str) -> Result<ApiObs, String> {
             Ok(b) => oka::balance_to_map(&b),
             Err(e) => return Err(format!("range balance query failed: {}", e)),
         };
-        Ok(ApiObs { balance, txns, register, by_account, range_balance })
+        let absolute = absolute_register_clause(&txns, &c.account_aliases, &|name: &str| view(l.postings(ctx, &PostingQuery { account: Some(name.to_string()) })));
+        Ok(ApiObs { balance, txns, register, by_account, range_balance, absolute })
     })
 }
 
-fn observe(base: &Base, text: &str, path: &Path) -> Obs {
-    let api = observe_api(base, text);
+fn observe(c: &Compiled, text: &str, path: &Path) -> Obs {
+    let base = c.base;
+    let api = observe_api(c, text);
     std::fs::write(path, text).expect("write scratch ledger");
     let pstr = path.to_string_lossy().to_string();
     let cli = base
@@ -603,7 +663,10 @@ fn judge_a(c: &Compiled, canon: &Result<Obs, String>, digits: &[u8], path: &Path
         Ok(o) => o,
         Err(why) => return Outcome::violation(format!("transparency/{}/canonical-form-unhealthy", c.base.name), why.clone()),
     };
-    let got = observe(c.base, &c.render(digits), path);
+    let got = observe(c, &c.render(digits), path);
+    if let Some(o) = absolute_violation(c.base, got.api.as_ref().ok().map(|a| &a.absolute)) {
+        return o;
+    }
     let w = digits.iter().filter(|d| **d != 0).count();
     let kinds: BTreeSet<&str> = digits.iter().enumerate().filter(|(_, d)| **d != 0).map(|(i, _)| if c.base.entities[c.sites[i].entity].kind == Kind::Account { "account" } else { "commodity" }).collect();
     match diff(c, canon, &got) {
@@ -612,14 +675,20 @@ fn judge_a(c: &Compiled, canon: &Result<Obs, String>, digits: &[u8], path: &Path
             2 => "2",
             3..=5 => "3-5",
             _ => "6+",
-        }, kinds.into_iter().collect::<Vec<_>>().join("+"))),
+        }, if w >= 3 { "any".to_string() } else { kinds.into_iter().collect::<Vec<_>>().join("+") })),
         Diff::Soft(label) => Outcome::dont_care(format!("text-differs-values-equal/{}/{}", c.base.name, label)),
         Diff::Hard { observable, kind, detail } => {
-            let culprit = culprit_label(c, digits, &|dg: &[u8]| !matches!(diff(c, canon, &observe(c.base, &c.render(dg), path)), Diff::Same | Diff::Soft(_)));
+            let culprit = culprit_label(c, digits, &|dg: &[u8]| !matches!(diff(c, canon, &observe(c, &c.render(dg), path)), Diff::Same | Diff::Soft(_)));
             let what = if observable.starts_with("cli:") { format!("{}-{}", observable.replace(':', "-"), kind) } else { kind.to_string() };
             Outcome::violation(format!("transparency/{}/{}", what, culprit), format!("base ledger {}, first differing observable: {}\n{}", c.base.name, observable, detail))
         }
     }
+}
+
+/// Violation of the absolute register-by-account clause, if any.
+fn absolute_violation(base: &Base, absolute: Option<&Vec<(&'static str, String)>>) -> Option<Outcome> {
+    let (kind, detail) = absolute?.first()?;
+    Some(Outcome::violation(format!("register-by-account/{}/api", kind), format!("base ledger {}\n{}", base.name, detail)))
 }
 
 /// The all-canonical run of a base ledger; must be accepted, succeed in every command, show no alias and
@@ -627,7 +696,7 @@ fn judge_a(c: &Compiled, canon: &Result<Obs, String>, digits: &[u8], path: &Path
 fn canonical_obs(c: &Compiled, path: &Path) -> Result<Obs, String> {
     let digits = vec![0u8; c.sites.len()];
     let text = c.render(&digits);
-    let o = match fw::guarded(|| observe(c.base, &text, path)) {
+    let o = match fw::guarded(|| observe(c, &text, path)) {
         Ok(o) => o,
         Err(p) => return Err(format!("panic while processing the canonical form: {}", p)),
     };
@@ -659,7 +728,7 @@ fn canonical_obs(c: &Compiled, path: &Path) -> Result<Obs, String> {
 
 fn part_a(ctx: &mut Ctx, path: &Path) -> u64 {
     let mut ledgers = 0u64;
-    for base in [&L1, &L2, &L3] {
+    for base in [&L1, &L2, &L3, &L4] {
         let c = compile(base);
         let (assignments, mode) = c.assignments(ctx.tier);
         let canon = canonical_obs(&c, path);
@@ -674,7 +743,7 @@ fn part_a(ctx: &mut Ctx, path: &Path) -> u64 {
         ctx.case(
             || describe_a(&c, &zero),
             || match &canon {
-                Ok(_) => Outcome::pass(format!("canonical-form-as-pinned/{}", base.name)),
+                Ok(o) => absolute_violation(base, o.api.as_ref().ok().map(|a| &a.absolute)).unwrap_or_else(|| Outcome::pass(format!("canonical-form-as-pinned/{}", base.name))),
                 Err(why) => Outcome::violation(format!("transparency/{}/canonical-form-unhealthy", base.name), why.clone()),
             },
         );
@@ -736,6 +805,7 @@ struct DbApi {
     txns: Vec<TxnView>,
     /// Ledger::balance converted up-to-date (2024-02-01) to USD / JPY
     converted: Vec<(String, Result<Balances, String>)>,
+    absolute: Vec<(&'static str, String)>,
 }
 
 #[derive(Clone, PartialEq, Eq, Debug)]
@@ -744,7 +814,7 @@ struct DbObs {
     cli: Vec<String>,
 }
 
-fn observe_db(db: &PriceDb, ledger_text: &str, db_text: &str, lpath: &Path, dpath: &Path) -> DbObs {
+fn observe_db(c: &Compiled, db: &PriceDb, ledger_text: &str, db_text: &str, lpath: &Path, dpath: &Path) -> DbObs {
     use okane_core::report::query::{Conversion, ConversionStrategy};
     std::fs::write(lpath, ledger_text).expect("write scratch ledger");
     std::fs::write(dpath, db_text).expect("write scratch price db");
@@ -772,7 +842,8 @@ fn observe_db(db: &PriceDb, ledger_text: &str, db_text: &str, lpath: &Path, dpat
             };
             converted.push((t.to_string(), r));
         }
-        Ok(DbApi { balance, txns, converted })
+        let absolute = absolute_register_clause(&txns, &c.account_aliases, &|name: &str| l.postings(ctx, &PostingQuery { account: Some(name.to_string()) }).iter().map(|p| (p.account.as_str().to_string(), oka::amount_to_qmap(&p.amount))).collect());
+        Ok(DbApi { balance, txns, converted, absolute })
     });
     let (lp, dp) = (lpath.to_string_lossy().to_string(), dpath.to_string_lossy().to_string());
     let cli = db
@@ -841,7 +912,7 @@ fn diff_db(c: &Compiled, db: &PriceDb, canon: &DbObs, got: &DbObs) -> Option<(St
 fn canonical_db_obs(c: &Compiled, db: &PriceDb, d: &Compiled, lpath: &Path, dpath: &Path) -> Result<DbObs, String> {
     let ledger = c.render(&vec![0u8; c.sites.len()]);
     let dbt = d.render(&vec![0u8; d.sites.len()]);
-    let o = match fw::guarded(|| observe_db(db, &ledger, &dbt, lpath, dpath)) {
+    let o = match fw::guarded(|| observe_db(c, db, &ledger, &dbt, lpath, dpath)) {
         Ok(o) => o,
         Err(p) => return Err(format!("panic while processing the canonical ledger with the canonical price DB: {}", p)),
     };
@@ -888,7 +959,7 @@ fn part_c(ctx: &mut Ctx, lpath: &Path, dpath: &Path) -> u64 {
         ctx.case(
             || format!("[part C, {}] canonical ledger with the price DB in canonical names, against the pinned `balance -X USD` report\n--- price DB ---\n{}--- ledger ---\n{}", base.name, d0.render(&vec![0u8; d0.sites.len()]), c.render(&spellings[0].1)),
             || match &canon {
-                Ok(_) => Outcome::pass(format!("price-db/canonical-form-as-pinned/{}", base.name)),
+                Ok(o) => absolute_violation(base, o.api.as_ref().ok().map(|a| &a.absolute)).unwrap_or_else(|| Outcome::pass(format!("price-db/canonical-form-as-pinned/{}", base.name))),
                 Err(why) => Outcome::violation(format!("transparency/price-db/{}/canonical-form-unhealthy", base.name), why.clone()),
             },
         );
@@ -925,12 +996,15 @@ fn part_c(ctx: &mut Ctx, lpath: &Path, dpath: &Path) -> u64 {
                             Ok(o) => o,
                             Err(why) => return Outcome::violation(format!("transparency/price-db/{}/canonical-form-unhealthy", base.name), why.clone()),
                         };
-                        let got = observe_db(db, &ledger, &d.render(&digits), lpath, dpath);
+                        let got = observe_db(&c, db, &ledger, &d.render(&digits), lpath, dpath);
+                        if let Some(o) = absolute_violation(base, got.api.as_ref().ok().map(|a| &a.absolute)) {
+                            return o;
+                        }
                         let w = digits.iter().filter(|x| **x != 0).count();
                         match diff_db(&c, db, canon, &got) {
                             None => Outcome::pass(format!("transparent-price-db/{}/{}/{}-db-sites-substituted", base.name, sname, if w <= 2 { "0-2" } else { "3+" })),
                             Some((observable, kind, detail)) => {
-                                let culprit = if w == 0 { "ledger-aliases-only".to_string() } else { culprit_label(&d, &digits, &|dg: &[u8]| diff_db(&c, db, canon, &observe_db(db, &ledger, &d.render(dg), lpath, dpath)).is_some()) };
+                                let culprit = if w == 0 { "ledger-aliases-only".to_string() } else { culprit_label(&d, &digits, &|dg: &[u8]| diff_db(&c, db, canon, &observe_db(&c, db, &ledger, &d.render(dg), lpath, dpath)).is_some()) };
                                 let what = if observable.starts_with("cli:") { format!("{}-{}", observable.replace(':', "-"), kind) } else { kind.to_string() };
                                 Outcome::violation(format!("transparency/price-db/{}/{}", what, culprit.replace("commodity-alias", "db-commodity-alias")), format!("base ledger {} ({}), first differing observable: {}\n{}", base.name, sname, observable, detail))
                             }
@@ -943,12 +1017,167 @@ fn part_c(ctx: &mut Ctx, lpath: &Path, dpath: &Path) -> u64 {
         ctx.case(
             || format!("[part C, {}, NOT JUDGED] price DB naming only commodities the ledger never mentions\n--- price DB ---\nP 2024/01/31 XAU 2,000.00 CHF\n--- ledger ---\n{}", base.name, c.render(&spellings[0].1)),
             || {
-                let o = observe_db(db, &c.render(&spellings[0].1), "P 2024/01/31 XAU 2,000.00 CHF\n", lpath, dpath);
+                let o = observe_db(&c, db, &c.render(&spellings[0].1), "P 2024/01/31 XAU 2,000.00 CHF\n", lpath, dpath);
                 Outcome::dont_care(format!("not-judged/price-db-with-undeclared-commodities/{}", if o.api.is_ok() { "accepted" } else { "rejected" }))
             },
         );
     }
     states
+}
+
+// =================================================================================================
+// Part D — `register FILE <account>` / Ledger::postings(account) is complete, under every map order
+// =================================================================================================
+//
+// ABSOLUTE clause (not relative to the canonical run, which declares the same aliases): for every account that
+// occurs, the register restricted to that account lists exactly that account's postings of the unrestricted
+// register. Checked through the API in every case of parts A and C under the default (insertion) order of okane's
+// internal maps, and here, for the canonical form and every single account-site substitution of every base ledger,
+// through API and CLI under EVERY execution with at most d non-default iteration orders of the maps behind the
+// verif hook (the account table is such a map; d = 1 quick, 2 thorough).
+
+/// Split the first inline amount ("0", "12 USD", "(1 A + 2 B)") off the rest of a register line.
+fn split_first_amount(rest: &str) -> Option<(&str, &str)> {
+    if rest.starts_with('(') {
+        let e = rest.find(')')?;
+        return Some((&rest[..=e], rest[e + 1..].trim_start()));
+    }
+    let numeric = |t: &str| !t.is_empty() && t.chars().all(|ch| ch.is_ascii_digit() || matches!(ch, '-' | '.' | ','));
+    let (t1, after) = rest.split_once(' ').unwrap_or((rest, ""));
+    if !numeric(t1) {
+        return None;
+    }
+    let t2 = after.split(' ').next().unwrap_or("");
+    if t1 == "0" && (t2.is_empty() || t2.starts_with('(') || numeric(t2)) {
+        return Some((t1, after));
+    }
+    let end = t1.len() + 1 + t2.len();
+    Some((&rest[..end], rest[end..].trim_start()))
+}
+
+/// The same clause on the CLI: `okane register FILE <account>` has one line per line of `okane register FILE` that
+/// belongs to the account, with the same amounts (the running totals necessarily differ).
+fn cli_register_clause(names: &BTreeSet<String>, path: &Path) -> Vec<(&'static str, String)> {
+    let pstr = path.to_string_lossy().to_string();
+    let full = run_cli(&["okane".to_string(), "register".to_string(), pstr.clone()]);
+    let Some(full_body) = full.strip_prefix("EXIT 0\n") else {
+        return vec![("register-command-fails", full.replace(&pstr, "<file>"))];
+    };
+    let mut out = vec![];
+    for name in names {
+        let prefix = format!("{} ", name);
+        let want: Vec<&str> = full_body.lines().filter_map(|l| l.strip_prefix(prefix.as_str())).collect();
+        let got_out = run_cli(&["okane".to_string(), "register".to_string(), pstr.clone(), name.clone()]);
+        let Some(got_body) = got_out.strip_prefix("EXIT 0\n") else {
+            out.push(("register-command-fails", format!("okane register <file> {:?}:\n{}", name, got_out.replace(&pstr, "<file>"))));
+            continue;
+        };
+        let got: Vec<&str> = got_body.lines().map(|l| l.strip_prefix(prefix.as_str()).unwrap_or(l)).collect();
+        if got.is_empty() && !want.is_empty() {
+            out.push(("empty-although-account-has-postings", format!("`okane register <file>` has {} lines for account {:?} but `okane register <file> {:?}` prints nothing", want.len(), name, name)));
+            continue;
+        }
+        let amounts = |v: &[&str]| -> Option<Vec<String>> { v.iter().map(|r| split_first_amount(r).map(|x| x.0.to_string())).collect() };
+        let differs = match (amounts(&want), amounts(&got)) {
+            (Some(a), Some(b)) => a != b,
+            _ => want.len() != got.len(),
+        };
+        if differs {
+            out.push(("differs-from-transactions", format!("account {:?}: lines of `okane register <file>`: {:?}\nlines of `okane register <file> {:?}`: {:?}", name, want, name, got)));
+        }
+    }
+    out
+}
+
+/// One execution: "" when the clause holds through API and CLI, else "<kind>|<api|cli>|<detail>".
+fn absolute_report(c: &Compiled, text: &str, path: &Path) -> String {
+    let api = match observe_api(c, text) {
+        Ok(a) => a,
+        Err(e) => return format!("ledger-rejected|api|{}", e),
+    };
+    if let Some((k, d)) = api.absolute.first() {
+        return format!("{}|api|{}", k, d);
+    }
+    std::fs::write(path, text).expect("write scratch ledger");
+    let names: BTreeSet<String> = api.txns.iter().flat_map(|t| &t.postings).map(|p| p.account.clone()).collect();
+    match cli_register_clause(&names, path).first() {
+        Some((k, d)) => format!("{}|cli|{}", k, d),
+        None => String::new(),
+    }
+}
+
+fn part_d(ctx: &mut Ctx, path: &Path) -> u64 {
+    let bound = ctx.tier.pick(1usize, 2usize);
+    ctx.fact("D_map_order_deviation_bound", bound as u64);
+    let mut forms = 0u64;
+    for base in [&L1, &L2, &L3, &L4] {
+        let c = compile(base);
+        let mut list: Vec<Vec<u8>> = vec![vec![0u8; c.sites.len()]];
+        for (i, site) in c.sites.iter().enumerate() {
+            if base.entities[site.entity].kind == Kind::Account {
+                for d in 1..site.choices.len() as u8 {
+                    let mut digits = vec![0u8; c.sites.len()];
+                    digits[i] = d;
+                    list.push(digits);
+                }
+            }
+        }
+        forms += list.len() as u64;
+        for digits in list {
+            if !ctx.next_is_mine() {
+                ctx.skip_cases(1);
+                continue;
+            }
+            let text = c.render(&digits);
+            let tick_ctx: *const Ctx = ctx;
+            let tick = move || unsafe { (*tick_ctx).tick() };
+            let mut execs = 0u64;
+            ctx.case(
+                || {
+                    let subs: Vec<String> = digits.iter().enumerate().filter(|(_, x)| **x != 0).map(|(i, x)| site_label(&c, i, *x)).collect();
+                    format!(
+                        "[part D, {}] substitution: {}\nfor every account of the ledger: Ledger::postings(account) and `okane register <file> <account>` list exactly that account's postings of the unrestricted register; every execution with <= {} non-default map iteration orders\n--- ledger ---\n{}",
+                        base.name,
+                        if subs.is_empty() { "none (canonical form)".to_string() } else { subs.join(", ") },
+                        bound,
+                        text
+                    )
+                },
+                || {
+                    let f = || absolute_report(&c, &text, path);
+                    let default_run = f();
+                    let ex = super::c13::explore(bound, &f, &tick);
+                    execs = ex.executions + 1;
+                    let bad = if !default_run.is_empty() { Some((default_run.clone(), "default-map-order".to_string())) } else { ex.outcomes.iter().find(|o| !o.is_empty()).map(|o| (o.clone(), format!("non-default-map-order (choice vector {:?})", ex.witness.as_ref().map(|w| w.0.clone())))) };
+                    match bad {
+                        None => Outcome::pass(format!("register-by-account-complete/{}/all-map-orders-with-{}-deviations", if digits.iter().all(|x| *x == 0) { "canonical-form" } else { "one-account-alias-written" }, bound)),
+                        Some((report, order)) => {
+                            let mut it = report.splitn(3, '|');
+                            let (kind, via, detail) = (it.next().unwrap_or("?"), it.next().unwrap_or("?"), it.next().unwrap_or(""));
+                            Outcome::violation(format!("register-by-account/{}/{}", kind, via), format!("base ledger {}, {}\n{}", base.name, order, detail))
+                        }
+                    }
+                },
+            );
+            ctx.count("D_map_order_executions", execs);
+        }
+        // Not judged: an alias as the ACCOUNT argument of the register query (the statement speaks of aliases written in the ledger).
+        if !c.account_aliases.is_empty() {
+            ctx.case(
+                || format!("[part D, {}, NOT JUDGED] Ledger::postings(account = <alias>) for the aliases {:?}\n--- ledger ---\n{}", base.name, c.account_aliases, c.render(&vec![0u8; c.sites.len()])),
+                || {
+                    let text = c.render(&c.designated());
+                    let listed = oka::with_ledger(&[(oka::ROOT, text.as_str())], oka::ROOT, None, |r| match r {
+                        Ok((l, ctx)) => c.account_aliases.iter().map(|(a, _)| l.postings(ctx, &PostingQuery { account: Some(a.clone()) }).len()).sum::<usize>(),
+                        Err(_) => 0,
+                    });
+                    Outcome::dont_care(format!("not-judged/register-with-alias-as-argument/{}", if listed == 0 { "lists-nothing" } else { "lists-postings" }))
+                },
+            );
+        }
+    }
+    ctx.fact("D_forms", forms);
+    forms
 }
 
 // =================================================================================================
@@ -1400,8 +1629,9 @@ fn run(ctx: &mut Ctx) {
     let dpath = dir.join(format!("case-{}.pricedb", ctx.shard));
     let a_states = part_a(ctx, &path);
     let c_states = part_c(ctx, &path, &dpath);
+    let d_forms = part_d(ctx, &path);
     let b_states = part_b(ctx, &path);
-    ctx.fact("states", a_states + b_states + c_states);
+    ctx.fact("states", a_states + b_states + c_states + d_forms);
     ctx.fact("C_distinct_ledger_and_price_db_pairs", c_states);
     ctx.fact("A_distinct_ledgers", a_states);
     ctx.fact("B_states_plus_histories", b_states);
